@@ -109,6 +109,25 @@ pub open spec fn from_roots(g: Graph, roots: Set<String>, sorted: Seq<String>) -
         ==> exists|t: String| roots.contains(t) && reaches(g, t, #[trigger] sorted[i])
 }
 
+// ---------------------------------------------------------------- C13: canonical enumeration
+/// String's Ord (lexicographic); only that it is a strict total order on the text is used
+pub uninterp spec fn str_lt(a: Seq<char>, b: Seq<char>) -> bool;
+pub broadcast axiom fn axiom_str_lt_order(a: Seq<char>, b: Seq<char>, c: Seq<char>)
+    ensures
+        #![trigger str_lt(a, b), str_lt(b, c)]
+        !str_lt(a, a),
+        str_lt(a, b) && str_lt(b, c) ==> str_lt(a, c),
+        a != b ==> str_lt(a, b) || str_lt(b, a);
+
+pub open spec fn strictly_sorted(v: Seq<&String>) -> bool {
+    forall|i: int, j: int| 0 <= i < j < v.len() ==> str_lt((#[trigger] v[i])@, (#[trigger] v[j])@)
+}
+
+pub open spec fn enumerates(v: Seq<&String>, s: Set<String>) -> bool {
+    &&& forall|i: int| 0 <= i < v.len() ==> s.contains(*#[trigger] v[i])
+    &&& forall|x: String| s.contains(x) ==> exists|i: int| 0 <= i < v.len() && *#[trigger] v[i] == x
+}
+
 //@ EXTRACT-TYPE file=src/analysis/dependency_graph.rs struct=TypeDependencyGraph
 
 #[verifier::external_type_specification]
@@ -121,7 +140,14 @@ impl TypeDependencyGraph {
 
 pub open spec fn g(&self) -> Graph { graph_of(self.dependencies@) }
 
-//@ EXTRACT-FN file=src/analysis/dependency_graph.rs in="impl TypeDependencyGraph" fn=topological_sort_types props=C20,C09
+//@ EXTRACT-FN file=src/analysis/dependency_graph.rs in="impl TypeDependencyGraph" fn=sorted_names props=C13
+//@ RETURNS r
+//@ EXTERNAL-BODY
+//@ CONTRACT
+//@|    ensures strictly_sorted(r@), enumerates(r@, names@),
+//@ END
+
+//@ EXTRACT-FN file=src/analysis/dependency_graph.rs in="impl TypeDependencyGraph" fn=topological_sort_types props=C20,C09,C13
 //@ RETURNS r
 //@ CONTRACT
 //@|    ensures
@@ -135,6 +161,7 @@ pub open spec fn g(&self) -> Graph { graph_of(self.dependencies@) }
 //@|        ordered(self.g(), sorted@),
 //@|        from_roots(self.g(), types@, sorted@),
 //@|        0 <= it.index@ <= it.snapshot@.remaining().len(),
+//@|        strictly_sorted(it.snapshot@.remaining()), // [C13]
 //@|        forall|i: int| 0 <= i < it.snapshot@.remaining().len() ==> types@.contains(*#[trigger] it.snapshot@.remaining()[i]),
 //@|        forall|x: String| types@.contains(x) ==> visited@.contains(x)
 //@|            || exists|i: int| it.index@ <= i < it.snapshot@.remaining().len() && *#[trigger] it.snapshot@.remaining()[i] == x,
@@ -154,7 +181,7 @@ pub open spec fn g(&self) -> Graph { graph_of(self.dependencies@) }
 //@|    }
 //@ END
 
-//@ EXTRACT-FN file=src/analysis/dependency_graph.rs in="impl TypeDependencyGraph" fn=topological_visit props=C20,C09
+//@ EXTRACT-FN file=src/analysis/dependency_graph.rs in="impl TypeDependencyGraph" fn=topological_visit props=C20,C09,C13
 //@ CONTRACT
 //@|    requires
 //@|        old(sorted)@.to_set() == old(visited)@,
@@ -202,6 +229,7 @@ pub open spec fn g(&self) -> Graph { graph_of(self.dependencies@) }
 //@|        forall|i: int| old(sorted)@.len() <= i < sorted@.len()
 //@|            ==> reaches(g, name_s, #[trigger] sorted@[i]),
 //@|        0 <= it.index@ <= it.snapshot@.remaining().len(),
+//@|        strictly_sorted(it.snapshot@.remaining()), // [C13]
 //@|        forall|i: int| 0 <= i < it.snapshot@.remaining().len() ==> deps@.contains(*#[trigger] it.snapshot@.remaining()[i]),
 //@|        forall|x: String| deps@.contains(x) ==> visiting@.contains(x) || visited@.contains(x)
 //@|            || exists|i: int| it.index@ <= i < it.snapshot@.remaining().len() && *#[trigger] it.snapshot@.remaining()[i] == x,
@@ -332,6 +360,64 @@ pub proof fn lemma_push_to_set(s: Seq<String>, x: String)
         if y == x { assert(s.push(x)[s.len() as int] == x); }
     }
     assert(s.push(x).to_set() =~= s.to_set().insert(x));
+}
+
+// ------------------------------------------------------------------ C13
+//@ PROPS C13
+/// C13: a strictly sorted enumeration is determined by the set alone — whatever order the hash
+/// collection yields its elements in, the sequence the loops of topological_* iterate is the same
+pub proof fn lemma_C13_sorted_enumeration_is_unique(a: Seq<&String>, b: Seq<&String>, s: Set<String>)
+    requires strictly_sorted(a), strictly_sorted(b), enumerates(a, s), enumerates(b, s),
+    ensures a.len() == b.len(), forall|i: int| 0 <= i < a.len() ==> *a[i] == *b[i],
+    decreases a.len(),
+{
+    broadcast use axiom_str_lt_order;
+    if a.len() == 0 {
+        if b.len() > 0 { assert(s.contains(*b[0])); }
+    } else {
+        assert(s.contains(*a[0]));
+        let j = choose|j: int| 0 <= j < b.len() && *b[j] == *a[0];
+        assert(s.contains(*b[0]));
+        let k = choose|k: int| 0 <= k < a.len() && *a[k] == *b[0];
+        // minimal elements coincide
+        if j > 0 {
+            assert(str_lt(b[0]@, b[j]@));
+            if k > 0 { assert(str_lt(a[0]@, a[k]@)); }
+            assert(false);
+        }
+        assert(*a[0] == *b[0]);
+        let a1 = a.skip(1);
+        let b1 = b.skip(1);
+        let s1 = s.remove(*a[0]);
+        assert forall|i: int, jj: int| 0 <= i < jj < a1.len() implies str_lt((#[trigger] a1[i])@, (#[trigger] a1[jj])@) by {
+            assert(a1[i] == a[i + 1] && a1[jj] == a[jj + 1]);
+        }
+        assert forall|i: int, jj: int| 0 <= i < jj < b1.len() implies str_lt((#[trigger] b1[i])@, (#[trigger] b1[jj])@) by {
+            assert(b1[i] == b[i + 1] && b1[jj] == b[jj + 1]);
+        }
+        assert forall|i: int| 0 <= i < a1.len() implies s1.contains(*#[trigger] a1[i]) by {
+            assert(a1[i] == a[i + 1]);
+            assert(str_lt(a[0]@, a[i + 1]@));
+        }
+        assert forall|i: int| 0 <= i < b1.len() implies s1.contains(*#[trigger] b1[i]) by {
+            assert(b1[i] == b[i + 1]);
+            assert(str_lt(b[0]@, b[i + 1]@));
+        }
+        assert forall|x: String| s1.contains(x) implies exists|i: int| 0 <= i < a1.len() && *#[trigger] a1[i] == x by {
+            let i = choose|i: int| 0 <= i < a.len() && *#[trigger] a[i] == x;
+            assert(i > 0);
+            assert(*a1[i - 1] == x);
+        }
+        assert forall|x: String| s1.contains(x) implies exists|i: int| 0 <= i < b1.len() && *#[trigger] b1[i] == x by {
+            let i = choose|i: int| 0 <= i < b.len() && *#[trigger] b[i] == x;
+            assert(i > 0);
+            assert(*b1[i - 1] == x);
+        }
+        lemma_C13_sorted_enumeration_is_unique(a1, b1, s1);
+        assert forall|i: int| 0 <= i < a.len() implies *a[i] == *b[i] by {
+            if i > 0 { assert(a1[i - 1] == a[i] && b1[i - 1] == b[i]); }
+        }
+    }
 }
 
 // ------------------------------------------------------------------ the properties
